@@ -85,7 +85,7 @@ def regen(ctx):
     try:
         st = json.load(open(stamp))
         if st.get("hash") == th and st.get("rc") == 0 and all(os.path.exists(os.path.join(gen_dir, f)) for f in st.get("files", [])) \
-                and all(os.path.exists(os.path.join(BUILD, f)) for f in ("nbapi.json", "objapi.json", "npapi.json", "spapi.json")):
+                and all(os.path.exists(os.path.join(BUILD, f)) for f in ("nbapi.json", "objapi.json", "npapi.json", "spapi.json", "npreduce.json")):
             rc, out = 0, st["out"]
             ctx.coverage["regeneration"] = "inputs unchanged (sha256 of src/vector, translators, seed): outputs of the previous regeneration reused"
         else:
